@@ -282,3 +282,102 @@ Lemma asap_due_next (now : Z) : due_now (tadd now tock) {| r_id := 0%N; r_due :=
 Proof. unfold due_now. cbn. apply Z.leb_refl. Qed.
 
 End RefZ.
+
+(* ---------- no drift, per run: in which cycles a constant-tock doer runs ---------- *)
+Section DriftZ.
+Variable D : amap (fdef Z).
+Variables tock start : Z.
+Variable i : id.
+Variable t : Z.
+Variable n : nat.
+Hypothesis t_nz : t <> 0%Z.
+Hypothesis const_t : forall pc, (1 <= pc < n)%nat -> out_at D i pc = OYield (Some t).
+
+Definition occ (o : list (id * Z)) : nat := count_occ N.eq_dec (map fst o) i.
+
+(* walk through the cycles: [now] = the cycle's tyme, [c] = how often doer i has run before.
+   As long as its next step is one of the constant-tock steps (c+1 <= n), doer i runs in
+   this cycle iff  start + c*t <= now : its c-th due tyme does not depend on when it ran. *)
+Fixpoint drift_ok (now : Z) (c : nat) (blocks : list (list (id * Z))) : Prop :=
+  match blocks with
+  | [] => True
+  | o :: r => ((S c <= n)%nat -> (In i (map fst o) <-> (start + Z.of_nat c * t <= now)%Z)) /\
+              drift_ok (now + tock)%Z (c + occ o) r
+  end.
+
+Definition J (q : list (@rdoer Z)) (c : nat) : Prop :=
+  NoDup (map r_id q) /\
+  ((S c <= n)%nat -> exists d, In d q /\ r_id d = i /\ r_pc d = S c /\ r_due d = (start + Z.of_nat c * t)%Z).
+
+Lemma nodup_map_inj {A B} (f : A -> B) l a b : NoDup (map f l) -> In a l -> In b l -> f a = f b -> a = b.
+Proof.
+  induction l as [|x l IH]; intros N Ia Ib E; [destruct Ia|].
+  cbn [map] in N. inversion N as [|? ? Nin N']; subst.
+  destruct Ia as [<-|Ia], Ib as [<-|Ib]; auto.
+  - exfalso. apply Nin. rewrite E. now apply in_map.
+  - exfalso. apply Nin. rewrite <- E. now apply in_map.
+Qed.
+
+Lemma pass_J now q c : J q c ->
+  J (fst (ref_pass D now tock q)) (c + occ (snd (ref_pass D now tock q))) /\
+  ((S c <= n)%nat -> (In i (map fst (snd (ref_pass D now tock q))) <-> (start + Z.of_nat c * t <= now)%Z)).
+Proof.
+  intros (ND & Ex).
+  assert (ND' : NoDup (map r_id (fst (ref_pass D now tock q)))) by (eapply subseq_NoDup; [apply ref_pass_ids|exact ND]).
+  assert (NDo : NoDup (map fst (snd (ref_pass D now tock q)))) by (eapply subseq_NoDup; [apply ref_pass_out_ids|exact ND]).
+  destruct (le_lt_dec (S c) n) as [Hc|Hc].
+  - destruct (Ex Hc) as (d & Id & Ei & Epc & Edue).
+    assert (Iff : In i (map fst (snd (ref_pass D now tock q))) <-> due_now now d = true).
+    { rewrite ref_pass_out, map_map. cbn [fst]. rewrite in_map_iff. split.
+      - intros (d2 & E2 & I2). apply filter_In in I2. destruct I2 as [I2 Du].
+        assert (d2 = d) by (eapply (nodup_map_inj r_id); [exact ND|exact I2|exact Id|congruence]). now subst.
+      - intro Du. exists d. split; [exact Ei|]. apply filter_In. split; assumption. }
+    assert (DueZ : due_now now d = true <-> (start + Z.of_nat c * t <= now)%Z).
+    { unfold due_now. rewrite Edue. cbn [tleb ZTime]. apply Z.leb_le. }
+    split; [|intros _; rewrite Iff; exact DueZ].
+    split; [exact ND'|]. intro Hc'.
+    destruct (due_now now d) eqn:Du.
+    + (* it ran *)
+      assert (Oc : occ (snd (ref_pass D now tock q)) = 1%nat).
+      { unfold occ. apply NoDup_count_occ'; [exact NDo|]. apply Iff. reflexivity. }
+      rewrite Oc in Hc' |- *.
+      assert (Eo : out_at D i (S c) = OYield (Some t)) by (apply const_t; lia).
+      exists {| r_id := i; r_due := (start + Z.of_nat (c + 1) * t)%Z; r_pc := S (c + 1) |}.
+      split; [|cbn [r_id r_pc r_due]; repeat split; lia].
+      rewrite ref_pass_keep. apply in_flat_map. exists d. split; [exact Id|].
+      unfold ref_visit. unfold due_now in Du. rewrite Du, Ei, Epc, Eo. cbn [fst]. left.
+      unfold next_due. cbn [tfalsy tadd ZTime]. rewrite (proj2 (Z.eqb_neq t 0) t_nz), Edue.
+      f_equal; lia.
+    + (* it did not *)
+      assert (Oc : occ (snd (ref_pass D now tock q)) = 0%nat).
+      { unfold occ. apply count_occ_not_In. intro X. apply Iff in X. discriminate. }
+      rewrite Oc in Hc' |- *. rewrite Nat.add_0_r. exists d. split; [|auto].
+      rewrite ref_pass_keep. apply in_flat_map. exists d. split; [exact Id|].
+      unfold ref_visit. unfold due_now in Du. rewrite Du. left. reflexivity.
+  - split; [|intro; lia]. split; [exact ND'|]. intro; lia.
+Qed.
+
+Lemma ref_cycles_drift limit stop cycles : forall now q outs res fin dn c,
+  ref_cycles D tock limit stop cycles now q outs = Some (res, fin, dn) -> J q c ->
+  exists news, res = outs ++ news /\ drift_ok now c news.
+Proof.
+  induction cycles as [|cy IH]; intros now q outs res fin dn c E Jq; cbn [ref_cycles] in E; [discriminate|].
+  destruct (pass_J now q c Jq) as (J' & Iff).
+  destruct (ref_pass D now tock q) as [q' o]. cbn [fst snd] in *.
+  assert (One : forall dn', Some (outs ++ [o], tadd now tock, dn') = Some (res, fin, dn) ->
+     exists news, res = outs ++ news /\ drift_ok now c news).
+  { intros dn' X. inversion X; subst. exists [o]. split; [reflexivity|]. cbn [drift_ok]. auto. }
+  destruct q' as [|d q']; [now apply (One true)|].
+  destruct (limited limit && tleb stop (tadd now tock)); [now apply (One false)|].
+  destruct (IH _ _ _ _ _ _ _ E J') as (news & -> & B).
+  exists (o :: news). split; [now rewrite <- app_assoc|]. cbn [drift_ok]. split; [exact Iff|exact B].
+Qed.
+
+Lemma J_enter ids : NoDup ids -> In i ids -> (exists t0, out_at D i 0 = OYield t0) -> J (ref_enter D start ids) 0.
+Proof.
+  intros ND I (t0 & E0). split; [eapply subseq_NoDup; [apply ref_enter_ids|exact ND]|].
+  intros _. exists {| r_id := i; r_due := start; r_pc := 1 |}. split; [|cbn; repeat split; lia].
+  unfold ref_enter. apply in_flat_map. exists i. split; [exact I|]. rewrite E0. left. reflexivity.
+Qed.
+
+End DriftZ.
